@@ -163,10 +163,11 @@ def fileBlocks (A : FArith) (data d : List Nat) (bs : Option Nat) : Option (List
 
 /-! ## `not_zero`, `sample` -/
 
-/-- `off[0] = 1; length[0] -= 1` -/
+/-- `off[0] = 1; length[0] -= 1`, and — repair a184e7a — `if length[0] == 0 and len(off) > 1: del off[0], length[0]`
+    (a one-byte blocksize: the empty first block would share its offset, hence its key, with the second) -/
 def shiftHead (ol : List Nat × List Nat) : List Nat × List Nat :=
   match ol.1, ol.2 with
-  | _ :: os, l :: ls => (1 :: os, (l - 1) :: ls)
+  | _ :: os, l :: ls => if l - 1 = 0 ∧ !os.isEmpty then (os, ls) else (1 :: os, (l - 1) :: ls)
   | os, ls => (os, ls)
 
 /-- `read_bytes(..., not_zero=True)`: `off[0] = 1; length[0] -= 1` (only in the blocksize branch, non-empty file) -/
